@@ -18,7 +18,7 @@ def _world(I):
     now = I.sym('now_s', hi=U64 // NS - 2 * YEAR)
     ep = I.sym('epoch', lo=1, hi=10 ** 9)
     set_epoch(I, ep, now_s=now)
-    set_ownership(I, FM, 'admin')
+    set_ownership(I, FM, 'creator')
     I.world.store(FM)['farm_counter'] = 3
     return now, ep, bank_of(I)
 
@@ -146,6 +146,48 @@ for _same in (True, False):
                    replay=_replay_create(_same, _shape))(_ob_create(_same, _shape))
 
 
+def _farm_msg(action, **kw):
+    return {'manage_farm': {'action': {action: kw}}}
+
+
+def _params_json(reward_denom, amount, start=None, end=None, ident=None):
+    from .pm import rj, coin_j
+    return {'lp_denom': rj(LP1), 'start_epoch': start, 'preliminary_end_epoch': end, 'curve': None,
+            'farm_asset': coin_j(reward_denom, amount), 'farm_identifier': ident}
+
+
+def _replay_s2(m):
+    ch = m['_choices']
+    ep = m['epoch']
+    farms = []
+    for k in (1, 2):
+        kind = ['active', 'expired'][ch['k%d' % k]]
+        start, end = (1, 3) if kind == 'expired' else (ep - 1, ep + 5)
+        farms.append(('m-old%d' % k, 'owner%d' % k, LP1, 'uusd', m['f%d_funded' % k], m['f%d_claimed' % k], 1, start, end))
+    return {'now_s': m['now_s'], 'farms': farms, 'counters': {'farm': 3},
+            'mints': [('farm_manager', [('uusd', m['fm_usd'])]), ('creator', [('uusd', m['reward']), ('uom', 1000)])],
+            'config': {'create_farm_fee': {'denom': 'uom', 'amount': '1000'}, 'max_concurrent_farms': 2},
+            'txs': [('creator', _farm_msg('create', params=_params_json('uusd', m['reward'], ep + 1, ep + 11)), [('uom', 1000), ('uusd', m['reward'])])]}
+
+
+def _replay_s3(m):
+    ch = m['_choices']
+    who = ['fowner', 'bob', 'creator'][ch['sender']]      # the contract owner of the native setup is `creator`
+    denom = ['uusd', 'uom'][ch['denom']]
+    return {'now_s': m['now_s'], 'farms': [('m-x', 'fowner', LP1, 'uusd', m['funded'], m['claimed'], m['rate'], m['cur_start'], m['cur_end'])],
+            'mints': [(who, [(denom, m['expand'])])],
+            'txs': [(who, _farm_msg('expand', params=_params_json(denom, m['expand'], ident='m-x')), [(denom, m['expand'])])]}
+
+
+def _replay_s4(m):
+    ch = m['_choices']
+    who = ['fowner', 'creator', 'bob'][ch['sender']]
+    funds = [('uom', 5)] if ch['funds'] == 1 else []
+    return {'now_s': m['now_s'], 'farms': [('m-x', 'fowner', LP1, 'uusd', m['funded'], m['claimed'], 1, 5, 50)],
+            'mints': [('farm_manager', [('uusd', m['fm_usd'])])] + ([(who, [('uom', 5)])] if funds else []),
+            'txs': [(who, _farm_msg('close', farm_identifier='m-x'), funds)]}
+
+
 def _existing_farm(I, ep, now, k, owner, kind):
     funded = I.sym('f%d_funded' % k, lo=1, hi=U128)
     claimed = I.sym('f%d_claimed' % k, hi=U128)
@@ -165,7 +207,8 @@ def _existing_farm(I, ep, now, k, owner, kind):
 @obligation('C11', 'S2.create_closes_expired_and_respects_limit', entries=['execute', 'create_farm', 'is_farm_expired', 'close_farms', 'reply'], kind='S',
             statement='creating a farm when the LP token already has farms: expired ones are closed and refunded funded-claimed to THEIR owners; '
                       'afterwards the LP token has at most max_concurrent_farms unexpired farms (creation refused otherwise)',
-            bounds='2 existing farms, each active or expired (symbolic budgets), max_concurrent_farms = 2', covers=['ok', 'too_many'])
+            bounds='2 existing farms, each active or expired (symbolic budgets), max_concurrent_farms = 2', covers=['ok', 'too_many'],
+            replay=fm_replay(lambda m: _replay_s2(m)))
 def s2(I):
     I.set_hint(dict(HINT, epoch=100, now_s=100 * DAY + 5, start=101, end=111))
     now, ep, b = _world(I)
@@ -183,6 +226,10 @@ def s2(I):
     st, resp = ch.execute('creator', FM, manage_farm('Create', params=farm_params(LP1, coin_v('uusd', reward), simp(ep + 1), simp(ep + 11))),
                           [coin_v('uom', 1000), coin_v('uusd', reward)])
     n_active = sum(1 for k in kinds if k == 'active')
+    I.observe('status', 'ok' if st == 'ok' else 'err')
+    for fid in ('m-old1', 'm-old2', 'f-4'):
+        observe_farm(I, fid)
+    observe_balances(I, b, [('owner1', 'uusd'), ('owner2', 'uusd'), (FM, 'uusd'), ('creator', 'uusd')])
     if st != 'ok':
         I.cover('too_many', HINT)
         I.check('rejected_only_when_limit_reached', n_active >= 2)
@@ -205,7 +252,8 @@ def s2(I):
 @obligation('C11', 'S3.expand_farm', entries=['execute', 'expand_farm', 'is_farm_expired'], kind='S',
             statement='expand: only the farm owner, only while current epoch < end and not expired, only the same reward denom, only multiples of the emission rate; '
                       'budget += attached amount, end += amount/rate; nothing else changes',
-            bounds='amounts full u128, sender in {owner, stranger, contract owner}, reward denom same/other', covers=['ok', 'rejected'])
+            bounds='amounts full u128, sender in {owner, stranger, contract owner}, reward denom same/other', covers=['ok', 'rejected'],
+            replay=fm_replay(lambda m: _replay_s3(m)))
 def s3(I):
     I.set_hint(HINT)
     now, ep, b = _world(I)
@@ -219,12 +267,15 @@ def s3(I):
     I.assume(cstart < cend)
     put_farm(I, farm('m-x', 'fowner', LP1, 'uusd', funded, claimed, rate, cstart, cend))
     add = I.sym('expand', lo=1, hi=U128)
-    who = ['fowner', 'bob', 'admin'][I.choose(3, 'sender')]
+    who = ['fowner', 'bob', 'creator'][I.choose(3, 'sender')]
     denom = ['uusd', 'uom'][I.choose(2, 'denom')]
     b.set(who, denom, add)
     ch = Chain(I, CONTRACTS_FM)
     pre = b.snapshot()
     st, resp = ch.execute(who, FM, manage_farm('Expand', params=farm_params(LP1, coin_v(denom, add), ident='m-x')), [coin_v(denom, add)])
+    I.observe('status', 'ok' if st == 'ok' else 'err')
+    observe_farm(I, 'm-x')
+    observe_balances(I, b, [(FM, 'uusd'), (FM, 'uom'), (who, denom)])
     if st != 'ok':
         I.cover('rejected', HINT)
         return
@@ -244,7 +295,8 @@ def s3(I):
 
 @obligation('C11', 'S4.close_farm', entries=['execute', 'close_farm', 'close_farms', 'is_owner', 'reply'], kind='S',
             statement='close: only the farm owner or the contract owner, no funds accepted; refunds exactly funded-claimed to the FARM owner and to nobody else; farm removed',
-            bounds='budgets full u128, sender in {farm owner, contract owner, stranger}, with/without funds', covers=['ok', 'rejected'])
+            bounds='budgets full u128, sender in {farm owner, contract owner, stranger}, with/without funds', covers=['ok', 'rejected'],
+            replay=fm_replay(lambda m: _replay_s4(m)))
 def s4(I):
     I.set_hint(HINT)
     now, ep, b = _world(I)
@@ -256,7 +308,7 @@ def s4(I):
     held = I.sym('fm_usd', hi=U128)
     I.assume(held >= funded - claimed)
     b.set(FM, 'uusd', held)
-    who = ['fowner', 'admin', 'bob'][I.choose(3, 'sender')]
+    who = ['fowner', 'creator', 'bob'][I.choose(3, 'sender')]
     with_funds = I.choose(2, 'funds') == 1
     funds = [coin_v('uom', 5)] if with_funds else []
     if with_funds:
@@ -264,12 +316,15 @@ def s4(I):
     ch = Chain(I, CONTRACTS_FM)
     pre = b.snapshot()
     st, resp = ch.execute(who, FM, manage_farm('Close', farm_identifier='m-x'), funds)
+    I.observe('status', 'ok' if st == 'ok' else 'err')
+    observe_farm(I, 'm-x')
+    observe_balances(I, b, [(FM, 'uusd'), ('fowner', 'uusd'), (who, 'uusd')])
     if st != 'ok':
         I.cover('rejected', HINT)
-        I.check('authorised_unfunded_close_accepted', not (who in ('fowner', 'admin') and not with_funds))
+        I.check('authorised_unfunded_close_accepted', not (who in ('fowner', 'creator') and not with_funds))
         return
     I.cover('ok', HINT)
-    I.check('only_farm_owner_or_contract_owner', who in ('fowner', 'admin'))
+    I.check('only_farm_owner_or_contract_owner', who in ('fowner', 'creator'))
     I.check('no_funds_accepted', not with_funds)
     I.check('farm_removed', get_farm(I, 'm-x') is None)
     I.check('refund_exact_to_farm_owner', smt.Eq(b.get('fowner', 'uusd'), pre.get('fowner', 'uusd') + funded - claimed))
